@@ -28,6 +28,13 @@ RULES = {
         replace='crate::hoist::chain_digest(&self.digest, val)',
         why='Iterator::chain / vec::IntoIter have no vstd model',
         assumes='yields the sequence [digest + 1] ++ val'),
+    # ---- commitment/vector/decommit.rs
+    'H_slice_map_collect': dict(
+        kind='H',
+        pattern='queries.iter().map($F).collect()',
+        replace='crate::hoist::slice_map(queries, $F)',
+        why='the vstd model of slice::Iter/Map/collect proved unstable (the proof broke when unrelated trait impls entered the solver context)',
+        assumes='slice.iter().map(f).collect::<Vec<_>>() applies f to every element in order (stated through the closure\'s own requires/ensures; the closure body itself IS verified)'),
     # ---- commitment/table/decommit.rs
     'H_into_iter_map_collect': dict(
         kind='H',
